@@ -517,12 +517,70 @@ def extract_subunits(fn):
     return roles, catch or "", rais or ""
 
 
-def extract_marks(fn):
-    """HookFunction.__call__: roles around the implementation call with respect to `_active_instances`"""
+def _store_emptiness_test(n, self_name):
+    """`len(self.X) > 0` | `len(self.X) != 0` | `len(self.X) >= 1` | `bool(self.X)` | `self.X` (truthiness) -> X"""
+    def store(e):
+        p = pyexpr.attr_path(e)
+        return p[1] if p and p[0] == self_name and len(p) == 2 else None
+    if isinstance(n, ast.Compare) and len(n.ops) == 1 and _call_path(n.left) == "len" and len(n.left.args) == 1:
+        c = _int_const(n.comparators[0])
+        if (isinstance(n.ops[0], (ast.Gt, ast.NotEq)) and c == 0) or (isinstance(n.ops[0], ast.GtE) and c == 1):
+            return store(n.left.args[0])
+        return None
+    if _call_path(n) == "bool" and len(n.args) == 1:
+        return store(n.args[0])
+    return store(n)
+
+
+def function_wide_flags(cls):
+    """properties of `HookFunction` that say "the mark store is not empty" (e.g. `cycle`): {property name: store attribute}"""
+    out = {}
+    for f in cls.body:
+        if isinstance(f, ast.FunctionDef) and any(_name(d) == "property" for d in f.decorator_list) and len(f.args.args) == 1:
+            st = _stmts(f)
+            if len(st) == 1 and isinstance(st[0], ast.Return) and st[0].value is not None:
+                x = _store_emptiness_test(st[0].value, f.args.args[0].arg)
+                if x:
+                    out[f.name] = x
+    return out
+
+
+def mark_store_scope(cls, attr):
+    """where the mark store lives: `per-function` (`self.<attr> = set()` in `__init__`: one store per hook function object) |
+    `shared` (a class attribute: one store for all hook functions)"""
+    def is_empty_set(v):
+        return isinstance(v, ast.Call) and _name(v.func) == "set" and not v.args and not v.keywords
+    scope = None
+    for st in cls.body:
+        if isinstance(st, ast.Assign) and any(_name(t) == attr for t in st.targets):
+            if not is_empty_set(st.value):
+                raise Untranslatable(f"HookFunction.{attr}: class attribute initialised with {ast.unparse(st.value)[:60]}")
+            scope = "shared"
+    init = next((f for f in cls.body if isinstance(f, ast.FunctionDef) and f.name == "__init__"), None)
+    if init is not None:
+        self_name = init.args.args[0].arg
+        for st in ast.walk(init):
+            if isinstance(st, ast.Assign):
+                for t in st.targets:
+                    p = pyexpr.attr_path(t)
+                    if p and p[0] == self_name and len(p) == 2 and p[1] == attr:
+                        if not is_empty_set(st.value) or st not in init.body:
+                            raise Untranslatable(f"HookFunction.__init__: {ast.unparse(st)[:80]}")
+                        scope = "per-function"
+    if scope is None:
+        raise Untranslatable(f"HookFunction: the mark store `{attr}` is initialised nowhere")
+    return scope
+
+
+def extract_marks(fn, cls=None):
+    """HookFunction.__call__: roles around the implementation call with respect to `_active_instances`; with `cls` (the class
+    node) also where the mark store lives (first role `store:per-function` | `store:shared`) and the function-wide form of the
+    cycle flag (`cycle = self.<property saying that the store is not empty>` -> `cycle:=any-mark`)"""
     self_name = fn.args.args[0].arg
     roles = []
     key = cyc = None
     marks_attr = None
+    wide = function_wide_flags(cls) if cls is not None else {}
 
     def marks_call(n, method):
         nonlocal marks_attr
@@ -549,6 +607,15 @@ def extract_marks(fn):
                     cyc = st.targets[0].id
                     roles.append("cycle:=key-in-marks")
                     continue
+            vp = pyexpr.attr_path(v)
+            if vp and vp[0] == self_name and len(vp) == 2 and vp[1] in wide and key is not None and cyc is None:
+                # the flag of the whole function: true while the function runs on ANY instance
+                if marks_attr not in (None, wide[vp[1]]):
+                    raise Untranslatable("two different mark stores")
+                marks_attr = wide[vp[1]]
+                cyc = st.targets[0].id
+                roles.append("cycle:=any-mark")
+                continue
             roles.append("local")
             continue
         if marks_call(st, "add"):
@@ -572,6 +639,10 @@ def extract_marks(fn):
             roles.append("return")
             continue
         raise Untranslatable(f"HookFunction.__call__: statement {ast.unparse(st)[:80]}")
+    if cls is not None:
+        if marks_attr is None:
+            raise Untranslatable("HookFunction.__call__: no mark store")
+        roles.insert(0, "store:" + mark_store_scope(cls, marks_attr))
     return roles
 
 
@@ -758,7 +829,8 @@ def extract(repo=None):
     info["result_overrides"] = [(c, r) for c, r in fam["result_methods"] if c != "Unit"]
     info["cache_overrides"] = [(c, r) for c, r in fam["cache_methods"] if c != "HookHost"]
     info["subunits"], info["sub_catch"], info["sub_raise"] = extract_subunits(_method(unit, "_solve_subunits"))
-    info["marks"] = extract_marks(_method(_class(_parse(HOOKS, repo), "HookFunction"), "__call__"))
+    hf = _class(_parse(HOOKS, repo), "HookFunction")
+    info["marks"] = extract_marks(_method(hf, "__call__"), hf)
     info["default_prec"], info["default_max_iter"] = extract_defaults(repo)
     return info
 
